@@ -271,7 +271,15 @@ func c15Gen(c *core.Ctx, fl *inflight) {
 			fresh = append(fresh, reflect.StructOf(fields))
 		}
 		// (c18ThingRef: a struct named ...Ref with fields Ref and Value is rendered as "a reference or the value")
-		types := append([]reflect.Type{reflect.TypeOf(c15Node{}), reflect.TypeOf(c15Inner{}), reflect.TypeOf([]c15Node{}), reflect.TypeOf(c18HasRef{}), reflect.TypeOf(c18ThingRef{})}, fresh...)
+		// fresh RECURSIVE types: four per round, first generated by all goroutines at once
+		// (they come first: right behind the start barrier the goroutines are closest together)
+		var types []reflect.Type
+		for k := 0; k < 4; k++ {
+			types = append(types, c15RecTypes[(round*4+k)%len(c15RecTypes)])
+		}
+		c.Cover("layers", "L3-first-generation-of-recursive-types")
+		types = append(types, reflect.TypeOf(c15Node{}), reflect.TypeOf(c15Inner{}), reflect.TypeOf([]c15Node{}), reflect.TypeOf(c18HasRef{}), reflect.TypeOf(c18ThingRef{}))
+		types = append(types, fresh...)
 		G := []int{8, 16, 32}[round%3]
 		out := make([][]string, G)
 		var wg sync.WaitGroup
